@@ -1,11 +1,14 @@
 (* Property C02 (QUIC v1 STREAM data exported exactly, datagram by datagram) -- statements only.
-   What is proved here is the output side: from the frames a session has decrypted to the datagrams written.  That the frames
-   decrypted are the frames sent (header protection, packet numbers, key selection, CRYPTO reassembly) is decided by the
-   reference sender and the correspondence of this model with the implementation (tools/props/c02.py); the packet-number
-   part has its own theorems (C16), the key schedule too (C15). *)
+   Output side: from the frames a session has decrypted to the datagrams written (C02_nothing_lost_or_added ...).
+   Input side, 1-RTT packets: C02_short_packet_extracted (header protection, first byte, packet-number bytes, key phase and
+   ciphertext of a packet protected per RFC 9001 5.3-5.4 are recovered exactly) and C02_one_rtt_datagram (the session that holds the
+   sender's keys adds exactly the data of the packet's STREAM frames to its output); key selection across key updates:
+   C02_key_phase_*; packet numbers: C16; key schedule: C15; frames: C17; CRYPTO reassembly: C02_crypto_frames_any_order.
+   Long-header packets (Initial, Handshake, 0-RTT), connection-ID matching and Retry are decided by the reference sender and the
+   correspondence of this model with the implementation (tools/props/c02.py). *)
 From Coq Require Import ZArith List Bool.
 From Coq Require Import Permutation.
-Require Import PyLib SuiteTypes Crypto KeySchedule QuicKeys QuicTls QuicSession QuicBuildP QuicEpochP QuicCryptoP.
+Require Import PyLib SuiteTypes Crypto KeySchedule QuicKeys QuicPn QuicDissector QuicFrames QuicTls QuicSession TlsRecords QuicPackets QuicBuildP QuicEpochP QuicCryptoP QuicShortP.
 Import ListNotations.
 Open Scope Z_scope.
 
@@ -64,3 +67,45 @@ Example C02_example :
   filter nonempty (quic_build true (flat_map run_frames runs)) =
     [ {| od_ts := 10; od_isserver := false; od_payload := [1; 2] |}; {| od_ts := 20; od_isserver := true; od_payload := [7; 9; 8; 8] |} ].
 Proof. cbn. repeat split; try reflexivity. repeat constructor; cbn; intuition discriminate. Qed.
+
+(* ---------------- the input side: 1-RTT packets ---------------- *)
+(* A packet protected by the sender of Spec/QuicPackets.v (RFC 9001 5.3, 5.4: AEAD with the header as associated data, then header
+   protection from a sample of the ciphertext; AES or ChaCha20 mask) with ANY first byte of the form 01xxxxxx, connection ID, 1..4
+   packet-number bytes and payload: extract_quic_packet removes the protection and recovers first byte, packet-number bytes, key
+   phase and ciphertext exactly.  Assumed of the primitives: the mask has at least 5 bytes; masks and ciphertexts are bytes. *)
+Theorem C02_short_packet_extracted : forall C (chacha : bool) a (hp key iv : bytes) first (dcid pnb pn8 payload d : bytes) ts (srv : bool) keys,
+  0 <= first < 256 -> 64 <= first < 128 -> len pnb = Z.land first 3 + 1 -> bytes_ok dcid ->
+  (if srv then hp_server_app keys else hp_client_app keys) = Some hp ->
+  protect_short C chacha a hp key iv first dcid pnb pn8 payload = Ok d ->
+  (forall sample mask, (if chacha then c_chacha_mask C hp sample else c_ecb_enc C hp sample) = Ok mask -> 5 <= len mask /\ bytes_ok mask) ->
+  (forall nonce pt aad ct, c_aead_enc C a 16 key nonce pt aad = Ok ct -> bytes_ok ct) -> bytes_ok pnb ->
+  exists ct, c_aead_enc C a 16 key (quic_nonce iv pn8) payload ([first] ++ dcid ++ pnb) = Ok ct /\
+  extract_inner C d ts srv dcid keys chacha =
+    Ok ([ {| qp_type := QOneRtt; qp_isserver := srv; qp_ts := ts; qp_first_byte := [first]; qp_version := []; qp_dcid_len := []; qp_dcid := dcid;
+             qp_scid_len := []; qp_scid := []; qp_token_len_bytes := []; qp_token := []; qp_packet_len_bytes := []; qp_pn := pnb;
+             qp_payload := ct; qp_key_phase := Z.land (Z.shiftr first 2) 1; qp_supported := [] |} ], []).
+Proof. exact extract_short. Qed.
+Print Assumptions C02_short_packet_extracted.
+
+(* The datagram handed to the session that holds the sender's keys (select_decryptor yields them: C02_key_phase_*; the packet number
+   expands to the sender's: C16; the payload parses to fs: C17): the session's output grows by exactly the data of the packet's
+   STREAM frames, in frame order, stamped with the datagram's time and direction.  fs may hold any frames but CRYPTO and
+   NEW_CONNECTION_ID (which change other parts of the session). *)
+Theorem C02_one_rtt_datagram : forall C, CryptoLaws C -> forall keylog ftable (chacha : bool) a (hp key iv : bytes) first (dcid pnb pn8 payload d : bytes) ts (srv : bool) s s1 pns fs,
+  0 <= first < 256 -> 64 <= first < 128 -> len pnb = Z.land first 3 + 1 -> bytes_ok dcid -> bytes_ok pnb ->
+  (if srv then hp_server_app (qs_hp s) else hp_client_app (qs_hp s)) = Some hp ->
+  (match qt_ciphersuite (qs_tls s) with Some cs => bytes_eqb cs [0x13; 0x03] | None => false end) = chacha ->
+  protect_short C chacha a hp key iv first dcid pnb pn8 payload = Ok d ->
+  (forall sample mask, (if chacha then c_chacha_mask C hp sample else c_ecb_enc C hp sample) = Ok mask -> 5 <= len mask /\ bytes_ok mask) ->
+  (forall nonce pt aad ct, c_aead_enc C a 16 key nonce pt aad = Ok ct -> bytes_ok ct) ->
+  (forall ct, select_decryptor C s {| qp_type := QOneRtt; qp_isserver := srv; qp_ts := ts; qp_first_byte := [first]; qp_version := []; qp_dcid_len := []; qp_dcid := dcid;
+             qp_scid_len := []; qp_scid := []; qp_token_len_bytes := []; qp_token := []; qp_packet_len_bytes := []; qp_pn := pnb;
+             qp_payload := ct; qp_key_phase := Z.land (Z.shiftr first 2) 1; qp_supported := [] |} = (s1, Some (a, (key, iv)))) ->
+  get_full_packet_number (qs_pn s1) srv SpApp pnb = Ok (pn8, pns) ->
+  parse_frames ftable payload = Ok fs -> forallb plain_frame fs = true ->
+  exists s', process_datagram C keylog ftable (S (length d)) s d ts srv dcid = Ok s' /\
+             qs_output s' = qs_output s ++ flat_map (fun f => match f_cls f with
+                                                              | CStream => [ {| of_kind := OStream; of_data := nth 0 (f_datas f) []; of_ts := ts; of_isserver := srv |} ]
+                                                              | _ => [] end) fs.
+Proof. exact one_rtt_datagram. Qed.
+Print Assumptions C02_one_rtt_datagram.
